@@ -59,6 +59,9 @@ func (p c02) Gen(c *run.Ctx, idx int) (json.RawMessage, error) {
 	if uidx%6 == 3 {
 		cu, err = universe(c.Seed, "abslist", uidx, abstractListProfile)
 	}
+	if uidx%6 == 2 {
+		cu, err = universe(c.Seed, "many", uidx, manyServicesProfile)
+	}
 	if err != nil {
 		return nil, err
 	}
